@@ -133,3 +133,18 @@ Proof. reflexivity. Qed.
 
 Lemma link_server_add_routes_calls : C03_Gen.server_add_routes_calls = ["opt"; "s.ng.addRoutes"]%string.
 Proof. reflexivity. Qed.
+
+(* ---- request context: who writes which key ---- *)
+(* WithVars stores the map under the package's own key variable `pathVars` (never a caller-supplied
+   or plain string key); Authorize stores every custom claim under its own name k *)
+Lemma link_withvars_args : C03_Gen.withvars_args = ["r.Context"; "pathVars"; "params"]%string.
+Proof. reflexivity. Qed.
+
+Lemma link_withvars_calls : C03_Gen.withvars_calls = ["r.Context"; "context.WithValue"; "r.WithContext"; "return"]%string.
+Proof. reflexivity. Qed.
+
+Lemma link_authorize_ctx_args : C03_Gen.authorize_ctx_args = ["ctx"; "k"; "v"]%string.
+Proof. reflexivity. Qed.
+
+Lemma link_vars_calls : C03_Gen.vars_calls = ["r.Context().Value"; "return"; "return"]%string.
+Proof. reflexivity. Qed.
